@@ -124,6 +124,14 @@ func checkSliceReads(p *Prog, r *Report, rule string, fn *ssa.Function, src *ssa
 			idx := k.TermOf(x.Index)
 			lt := lenTerm(x.X)
 			ok := m.EntailsLE(Term{"", 0}, idx) && m.EntailsLE(Term{idx.Var, idx.K + 1}, lt)
+			if !ok {
+				// sums of two variables (src[pos+i]) and one-directional loop counters
+				if bs, isSum := k.res(x.Index).(*ssa.BinOp); isSum && bs.Op == token.ADD {
+					addNonNeg(m, bs.X, bs.Y)
+				}
+				deriveSumFacts(m, k, x.Block(), x.Index)
+				ok = m.EntailsLE(Term{"", 0}, idx) && m.EntailsLE(Term{idx.Var, idx.K + 1}, lt)
+			}
 			note := "0 <= " + idx.String() + " < len proven by dominating guards"
 			if !ok && idx.Var == "" && idx.K == 0 {
 				// src[0] on an error path: non-emptiness may follow from "some counter that only takes positions < len is positive"
